@@ -6,6 +6,10 @@ import (
 	"flag"
 	"fmt"
 	"os"
+	"os/exec"
+	"path/filepath"
+	"strings"
+	"sync"
 	"runtime/debug"
 	"strconv"
 	"time"
@@ -55,6 +59,10 @@ func main() {
 	start := time.Now()
 	verif := load.VerifDir()
 	p, err := load.Load()
+	if err == load.ErrOverlaySkipped {
+		fmt.Println("SELFTEST-SKIPPED: old fragment not found")
+		os.Exit(3)
+	}
 	if err != nil {
 		fmt.Printf("CHECKER-ERROR: load: %v\n", err)
 		os.Exit(2)
@@ -69,6 +77,9 @@ func main() {
 		}()
 		explanation = rule(c)
 	}()
+	if *tier == "thorough" && os.Getenv("VERIF_NO_EVIDENCE") == "" {
+		runSelfTest(c, verif, *prop)
+	}
 	code := c.Finish(verif, start, seed, explanation)
 	if *replay != "" {
 		for _, k := range want {
@@ -82,6 +93,92 @@ func main() {
 		}
 	}
 	os.Exit(code)
+}
+
+// mutant is one self-test entry of selftest/mutants/<ID>.json: a realistic, compiling edit
+// of easegress that the property's rules must report.
+type mutant struct {
+	Name   string `json:"name"`
+	File   string `json:"file"`
+	Old    string `json:"old"`
+	New    string `json:"new"`
+	Expect string `json:"expect"` // rule id that must fire ("" = any)
+	// Preserving marks a behaviour-preserving edit: the check must stay silent.
+	Preserving bool `json:"preserving,omitempty"`
+}
+
+// runSelfTest (thorough tier) applies each seeded mutant as a go/packages overlay in a
+// sub-process and requires the property's check to report it (or, for behaviour-preserving
+// edits, to stay silent). A surviving mutant is a checker error, never a VIOLATION.
+func runSelfTest(c *core.Ctx, verif, prop string) {
+	b, err := os.ReadFile(filepath.Join(verif, "selftest", "mutants", prop+".json"))
+	if err != nil {
+		return
+	}
+	var ms []mutant
+	if err := json.Unmarshal(b, &ms); err != nil {
+		c.Errorf("selftest: %v", err)
+		return
+	}
+	exe, _ := os.Executable()
+	st := &core.SelfTest{}
+	type result struct {
+		i    int
+		line string
+		kind string
+	}
+	results := make([]result, len(ms))
+	sem := make(chan struct{}, 3)
+	var wg sync.WaitGroup
+	for i, m := range ms {
+		wg.Add(1)
+		go func(i int, m mutant) {
+			defer wg.Done()
+			sem <- struct{}{}
+			defer func() { <-sem }()
+			cmd := exec.Command(exe, "-property", prop, "-tier", "quick")
+			cmd.Env = append(os.Environ(), "VERIF_NO_EVIDENCE=1", "VERIF_OVERLAY_FILE="+m.File, "VERIF_OVERLAY_OLD="+m.Old, "VERIF_OVERLAY_NEW="+m.New)
+			out, _ := cmd.CombinedOutput()
+			code := cmd.ProcessState.ExitCode()
+			fired := ""
+			for _, l := range strings.Split(string(out), "\n") {
+				if strings.HasPrefix(l, "violated: ") {
+					fired += strings.SplitN(strings.TrimPrefix(l, "violated: "), "|", 2)[0] + " "
+				}
+			}
+			r := result{i: i}
+			switch {
+			case code == 3:
+				r.kind, r.line = "skipped", m.Name+": skipped (fragment no longer present)"
+			case strings.Contains(string(out), "do not type-check"):
+				r.kind, r.line = "skipped", m.Name+": skipped (mutant does not compile on this tree)"
+			case m.Preserving && code == 0:
+				r.kind, r.line = "killed", m.Name+": behaviour-preserving edit, check silent"
+			case m.Preserving:
+				r.kind, r.line = "survived", m.Name+": behaviour-preserving edit raised an alarm: "+fired
+			case code == 1 && (m.Expect == "" || strings.Contains(fired, m.Expect+" ")):
+				r.kind, r.line = "killed", m.Name+": reported by "+strings.TrimSpace(fired)
+			default:
+				r.kind, r.line = "survived", fmt.Sprintf("%s: NOT reported as expected (exit %d, fired: %s, expected %s)", m.Name, code, fired, m.Expect)
+			}
+			results[i] = r
+		}(i, m)
+	}
+	wg.Wait()
+	for _, r := range results {
+		st.Total++
+		st.Details = append(st.Details, r.line)
+		switch r.kind {
+		case "killed":
+			st.Killed++
+		case "skipped":
+			st.Skipped++
+		default:
+			c.Errorf("selftest: %s", r.line)
+		}
+	}
+	c.SelfTest = st
+	fmt.Printf("selftest: %d mutants, %d handled as expected, %d skipped\n", st.Total, st.Killed, st.Skipped)
 }
 
 func isFlagSet(name string) bool {
